@@ -359,12 +359,14 @@ func init() {
 		buffer := buffer
 		race(fmt.Sprintf("race-subscribe-publish-buffer%d", buffer), 2, 3, buffer, func(w *World, e *evWorld) func() {
 			clock := 0
-			subReturned := 0
+			subReturned, subStarted := 0, 0
 			var last []gen.MessageEvent
 			var subErr error
 			pubStart := map[string]int{}
 			w.ex.Thread("SUB", func() {
 				w.n.Send(w.pids["C1"], doMsg{func(p *probe) error {
+					clock++
+					subStarted = clock
 					last, subErr = p.LinkEvent(e.ev)
 					clock++
 					subReturned = clock
@@ -398,6 +400,35 @@ func init() {
 					if subReturned != 0 && pubStart[pl] > subReturned && n != 1 {
 						w.ex.Fail("publication-lost", "%s was published after the subscription had returned but was handled %d times (%v)", pl, n, got)
 					}
+				}
+				// no hole: what the subscriber knows of (handed over on subscription or handled from the mailbox)
+				// is a run without gaps; a publication between two known ones cannot be missing
+				known := map[string]bool{}
+				for _, x := range buf {
+					known[x] = true
+				}
+				for _, x := range got {
+					known[x] = true
+				}
+				all := []string{"e1", "e2", "e3"}
+				first, lastK := -1, -1
+				for i, pl := range all {
+					if known[pl] {
+						if first < 0 {
+							first = i
+						}
+						lastK = i
+					}
+				}
+				for i := first; i >= 0 && i <= lastK; i++ {
+					if !known[all[i]] {
+						w.ex.Fail("publication-lost", "the subscriber was handed %v on subscription and handled %v: %s is missing in between", buf, got, all[i])
+					}
+				}
+				// with a buffer, the newest publication cannot fall between the chairs: if it began after the subscription
+				// call began it is either still buffered when the buffer is handed over or fanned out to the new link
+				if buffer > 0 && subStarted != 0 && pubStart["e3"] > subStarted && !known["e3"] {
+					w.ex.Fail("publication-lost", "e3 was published after LinkEvent had been called (buffer size %d); it was neither handed over on subscription (%v) nor handled (%v)", buffer, buf, got)
 				}
 				// per publisher order
 				idx := -1
@@ -511,6 +542,62 @@ func init() {
 				}
 			})
 		}
+	}
+	// with notifications: two first subscribers arriving together produce ONE EventStart, two last ones leaving
+	// together ONE EventStop
+	for _, phase := range []string{"subscribe", "unsubscribe"} {
+		phase := phase
+		harn.Register(harn.Scenario{Property: "C18", Name: "race-" + phase + "-" + phase + "-notify", Run: func(c *harn.Ctx) *harn.Result {
+			return harn.Explore(c, harn.Sched{QuickBound: 2, ThoroughBound: 3, Preempt: false, Cache: true, Body: nodeBody(func(w *World) {
+				e := newEvWorld(w)
+				e.producer("P")
+				e.consumer("C1")
+				e.consumer("C2")
+				w.Do("P", func(p *probe) error {
+					var err error
+					e.token, err = p.RegisterEvent("ev", gen.EventOptions{Notify: true})
+					return err
+				})
+				if phase == "unsubscribe" {
+					w.Do("C1", func(p *probe) error { _, err := p.LinkEvent(e.ev); return err })
+					w.Do("C2", func(p *probe) error { _, err := p.MonitorEvent(e.ev); return err })
+				}
+				var e1, e2 error
+				w.ex.Thread("T1", func() {
+					w.n.Send(w.pids["C1"], doMsg{func(p *probe) error {
+						if phase == "subscribe" {
+							_, e1 = p.LinkEvent(e.ev)
+						} else {
+							e1 = p.UnlinkEvent(e.ev)
+						}
+						return nil
+					}})
+				})
+				w.ex.Thread("T2", func() {
+					w.n.Send(w.pids["C2"], doMsg{func(p *probe) error {
+						if phase == "subscribe" {
+							_, e2 = p.MonitorEvent(e.ev)
+						} else {
+							e2 = p.DemonitorEvent(e.ev)
+						}
+						return nil
+					}})
+				})
+				w.Check = func() {
+					if e1 != nil || e2 != nil {
+						w.ex.Fail("subscribe-result", "%s calls returned %v / %v", phase, e1, e2)
+					}
+					want := "[start]"
+					if phase == "unsubscribe" {
+						want = "[start stop]"
+					}
+					if fmt.Sprint(e.notifs) != want {
+						w.ex.Fail("producer-notification", "two concurrent %s calls: the producer was told %v, expected %s", phase, e.notifs, want)
+					}
+					w.Out("notifs=%v", e.notifs)
+				}
+			})})
+		}})
 	}
 	// subscribers on another node: two of them on the same node, plus a local one
 	for _, nsub := range []int{1, 2, 3} {
